@@ -107,6 +107,12 @@ class Run:
             pieces = tuple(tuple(tuple(CI(zp[c * 384 + k * 64 + s], 64) for s in range(64)) for k in range(6)) for c in range(2))
             sv['board::zkey::TABLE'] = (pieces, tuple(CI(x, 64) for x in t['z_castling']),
                                         tuple(CI(x, 64) for x in t['z_en_passant']), CI(t['z_white_turn'], 64))
+        else:
+            B = z3.BitVecSort(64)
+            self.uf = {'Tp': z3.Function('Tp', B, B, B, B), 'Tc': z3.Function('Tc', B, B), 'Te': z3.Function('Te', B, B),
+                       'Tw': z3.BitVec('Tw', 64)}
+            sv['board::zkey::TABLE'] = (UFArr(self.uf['Tp'], 3), UFArr(self.uf['Tc'], 1), UFArr(self.uf['Te'], 1), self.uf['Tw'])
+            self.stubs.add('Zobrist table: uninterpreted functions Tp(colour,piece,square), Tc(i), Te(file), Tw - result holds for every table')
         self.stubs.add('OnceLock statics: contents taken from a native run of the real initialisers (helper `tables`)')
 
     # ------------------------------------------------------------ queries
@@ -114,7 +120,8 @@ class Run:
         q = solve.Query(qid, formulas, kind, note)
         solve.decide(q, timeout or self.timeout, self.seed)
         self.solver_time += q.seconds
-        self.queries.append(q)
+        self.queries.append({'id': q.qid, 'kind': q.kind, 'verdict': q.verdict, 'solver': q.solver, 'seconds': round(q.seconds, 3),
+                             'size_chars': q.size, 'note': q.note})
         if q.verdict == 'unknown':
             self.inconclusive.append('query %s: no verdict within %ss' % (qid, timeout or self.timeout))
         if self.tier == 'thorough' and q.verdict in ('unsat', 'sat') and os.environ.get('VERIF_NO_CVC5') != '1':
@@ -130,6 +137,70 @@ class Run:
             self.cvc5['unknown'] += 1
         else:
             self.inconclusive.append('solver disagreement on %s: z3=%s cvc5=%s' % (q.qid, q.verdict, r))
+
+    # ------------------------------------------------------------ parallel case split
+    def sub(self):
+        r = Run.__new__(Run)
+        r.__dict__.update(self.__dict__)
+        for k in ('queries', 'violations', 'known', 'inconclusive', 'notes', 'samples', 'vacuity', 'unwinding'):
+            setattr(r, k, [])
+        r.functions = {}
+        r.stubs = set()
+        r.selftest = {'cases': 0, 'mismatches': 0, 'what': []}
+        r.exec_stats = {'calls': 0, 'forks': 0, 'merges': 0, 'pruned': 0}
+        r.cvc5 = {'checked': 0, 'agree': 0, 'unknown': 0}
+        r.solver_time = 0.0
+        r.extra = {}
+        r.is_sub = True
+        return r
+
+    def export(self):
+        return {'queries': self.queries, 'violations': self.violations, 'known': self.known, 'inconclusive': self.inconclusive,
+                'samples': self.samples, 'vacuity': self.vacuity, 'unwinding': self.unwinding, 'functions': self.functions,
+                'stubs': sorted(self.stubs), 'selftest': self.selftest, 'exec_stats': self.exec_stats, 'cvc5': self.cvc5,
+                'solver_time': self.solver_time, 'extra': self.extra}
+
+    def merge(self, e):
+        self.queries += e['queries']
+        for v in e['violations']:
+            self.violations.append(v)
+        for k in e['known']:
+            self.known_finding(k)
+        self.inconclusive += e['inconclusive']
+        self.samples += e['samples']
+        self.vacuity += e['vacuity']
+        self.unwinding += e['unwinding']
+        self.functions.update(e['functions'])
+        self.stubs |= set(e['stubs'])
+        self.selftest['cases'] += e['selftest']['cases']
+        self.selftest['mismatches'] += e['selftest']['mismatches']
+        self.selftest['what'] += e['selftest']['what']
+        for k in self.exec_stats:
+            self.exec_stats[k] += e['exec_stats'].get(k, 0)
+        for k in self.cvc5:
+            self.cvc5[k] += e['cvc5'].get(k, 0)
+        self.solver_time += e['solver_time']
+        for k, v in e['extra'].items():
+            if isinstance(v, (int, float)) and isinstance(self.extra.get(k, 0), (int, float)):
+                self.extra[k] = self.extra.get(k, 0) + v
+            else:
+                self.extra.setdefault(k, v)
+
+    def parallel(self, fn, items, procs=None):
+        """run fn(sub_run, item) for every item in forked workers; merge the results.  Falls back to in-process
+        execution when VERIF_PROCS=1."""
+        import multiprocessing as mp
+        procs = int(os.environ.get('VERIF_PROCS', procs or min(16, os.cpu_count() or 1)))
+        global _PAR
+        _PAR = (self, fn)
+        if procs <= 1 or len(items) <= 1:
+            res = [_par_worker(it) for it in items]
+        else:
+            ctx = mp.get_context('fork')
+            with ctx.Pool(procs) as pool:
+                res = pool.map(_par_worker, items, chunksize=1)
+        for e in res:
+            self.merge(e)
 
     def absorb(self, ex):
         """collect executor statistics / function list"""
@@ -164,7 +235,7 @@ class Run:
 
     def violation(self, what, replay_obj):
         os.makedirs(REPLAY_DIR, exist_ok=True)
-        path = os.path.join(REPLAY_DIR, '%s-%d.json' % (self.prop_id, len(self.violations)))
+        path = os.path.join(REPLAY_DIR, '%s-%s%d.json' % (self.prop_id, getattr(self, '_viol_tag', ''), len(self.violations)))
         with open(path, 'w') as f:
             json.dump(replay_obj, f, indent=1, default=str)
         self.violations.append({'what': what, 'replay': path})
@@ -177,8 +248,8 @@ class Run:
     def finish(self):
         wall = time.time() - self.t0
         n_ob = len(self.queries)
-        n_unsat = sum(1 for q in self.queries if q.verdict == 'unsat')
-        n_sat = sum(1 for q in self.queries if q.verdict == 'sat')
+        n_unsat = sum(1 for q in self.queries if q['verdict'] == 'unsat')
+        n_sat = sum(1 for q in self.queries if q['verdict'] == 'sat')
         status = 'held'
         if self.inconclusive:
             status = 'inconclusive'
@@ -203,8 +274,7 @@ class Run:
             'outside_bounds': self.outside,
             'stubs': sorted(self.stubs),
             'tables_from_native_run': self.tables is not None,
-            'queries': [{'id': q.qid, 'kind': q.kind, 'verdict': q.verdict, 'solver': q.solver, 'seconds': round(q.seconds, 3),
-                         'size_chars': q.size, 'note': q.note} for q in self.queries][:400],
+            'queries': self.queries[:300],
             'queries_total': n_ob,
             'solver_time_s': round(self.solver_time, 2),
             'unwinding': self.unwinding,
@@ -246,6 +316,26 @@ class Run:
         if self.inconclusive:
             return 2
         return 0
+
+
+_PAR = None
+
+
+def _par_worker(item):
+    parent, fn = _PAR
+    sub = parent.sub()
+    # violations' replay files must not collide between workers
+    sub._viol_tag = 'w%d-%d' % (os.getpid(), abs(hash(str(item))) % 100000)
+    try:
+        fn(sub, item)
+    except Unsupported as e:
+        sub.inconclusive.append('unsupported construct in case %s: %s' % (str(item)[:80], e))
+    except Inconclusive as e:
+        sub.inconclusive.append(str(e))
+    except Exception as e:
+        sub.inconclusive.append('internal error in case %s: %r' % (str(item)[:80], e))
+        traceback.print_exc()
+    return sub.export()
 
 
 def run_check(prop_id, fn, level='proof'):
